@@ -328,10 +328,11 @@ func (m *MethodMocker) Returns(values ...interface{}) *When {
 	if when, err = CreateWhen(m, m.methodIns, nil, nil, true); err != nil {
 		panic(err)
 	}
+	// 先校验返回值, 再记录 when: 校验失败(panic)时 mocker 不保留未应用的 when
+	when.Returns(values...)
 	if err := m.whens(when); err != nil {
 		panic(err)
 	}
-	m.when.Returns(values...)
 	m.doApply(m.imp)
 	return when
 }
@@ -583,10 +584,11 @@ func (m *DefMocker) Returns(values ...interface{}) *When {
 	if when, err = CreateWhen(m, m.funcDef, nil, nil, false); err != nil {
 		panic(err)
 	}
+	// 先校验返回值, 再记录 when: 校验失败(panic)时 mocker 不保留未应用的 when
+	when.Returns(values...)
 	if err := m.whens(when); err != nil {
 		panic(err)
 	}
-	m.when.Returns(values...)
 	m.doApply(m.imp)
 	return when
 }
